@@ -124,11 +124,14 @@ def register(reg):
         "{R}[self.unbalance_col] == {CMP}".format(R=R, CMP=CMP),
         "{R}[self.carbon_balance_col] == {LABEL}".format(R=R, LABEL=LABEL),
         "{R}['input_reaction'] == old({R}['input_reaction'])".format(R=R),
+        # after a pass that reverts unsolved rows the side fields describe the returned reaction [C10]
+        "implies(override_unsolved, {R}['reactants'] == split_at(as_str({R}[self.reaction_col]), '>>', 0) and {R}['products'] == split_at(as_str({R}[self.reaction_col]), '>>', 1))".format(R=R),
     ]
     ROWPRE = ("forall(range(0, len(reactions)), lambda j: self.reaction_col in {R} and is_str({R}[self.reaction_col])"
               " and split_len(as_str({R}[self.reaction_col]), '>>') >= 2 and self.solved_col in {R} and 'input_reaction' in {R}"
               " and implies(not self.check_carbon_balance, self.carbon_balance_col in {R})"
-              " and implies(override_unsolved and not is_none(override_issue_msg) and not truthy({R}[self.solved_col]), self.issue_col in {R}))").format(R=R)
+              " and implies(override_unsolved and not is_none(override_issue_msg) and not truthy({R}[self.solved_col]), self.issue_col in {R})"
+              " and implies(override_unsolved, is_str({R}['input_reaction']) and split_len(as_str({R}['input_reaction']), '>>') >= 2))").format(R=R)
     KEYS = ["self.reaction_col", "self.solved_col", "self.solved_method_col", "self.unbalance_col",
             "self.carbon_balance_col", "self.issue_col", "'reactants'", "'products'"]
     SPLITS = ("forall(range(0, len(reactions)), lambda j: 'reactants' in {R} and 'products' in {R}"
@@ -147,7 +150,7 @@ def register(reg):
     INV1 = [
         SAME_ROWS, NOT_IN_LIST,
         "forall(range(_i, len(reactions)), lambda j: same_map({R}, at('loop1', mapof({R}))))".format(R=R),
-    ] + ["forall(range(0, _i), lambda j: %s)" % p for p in POST] + [
+    ] + ["forall(range(0, _i), lambda j: %s)" % p for p in POST[:-1]] + [
         "forall(range(0, _i), lambda j: forall(STR, lambda k: implies(" + " and ".join("k != %s" % k for k in KEYS) + ", "
         "({R}[k] == old({R}[k])) and ((k in {R}) == old(k in {R})))))".format(R=R),
     ]
